@@ -35,14 +35,16 @@ def cases(tier, seed):
     out = [{"id": "stream/%d" % i, "kind": "stream", "seed": [seed, 11, i], "cost": 3} for i in range(n)]
     out += [{"id": "periodic/%d" % i, "kind": "periodic", "seed": [seed, 111, i], "cost": 1} for i in range(n // 3)]
     out += [{"id": "flag/%d" % i, "kind": "flag", "seed": [seed, 1111, i], "cost": 3} for i in range(max(6, n // 12))]
+    out += [{"id": "interleaved/%d" % i, "kind": "interleaved", "seed": [seed, 11111, i], "cost": 3} for i in range(max(10, n // 10))]
     return out
 
 
 def targets(tier):
     k = 1 if tier == "quick" else 10
-    return {"updates": 60000 * k, "scores_compared": 3000 * k, "drifts": 150 * k, "post_drift_rebuilds": 60 * k,
+    return {"updates": 60000 * k, "scores_compared": 3000 * k, "drifts": 70 * k, "post_drift_rebuilds": 50 * k,
             "cases_2plus_components": 80 * k, "scaling_on_cases": 40 * k, "scaling_off_cases": 40 * k,
-            "scores:kl": 800 * k, "scores:intersection": 800 * k, "periodic_scores_zero": 300 * k, "periodic_cases_2plus_components": 20 * k, "flag_twin_runs": 40 * k}
+            "scores:kl": 800 * k, "scores:intersection": 800 * k, "periodic_scores_zero": 300 * k, "periodic_cases_2plus_components": 20 * k, "flag_twin_runs": 40 * k,
+            "interleaved_detector_pairs": 8 * k, "interleaved_updates_compared": 2000 * k}
 
 
 def gen_stream(rng, d, n, w):
@@ -70,13 +72,15 @@ def run_case(case, ctx):
         return run_periodic(case, ctx)
     if case["kind"] == "flag":
         return run_flag(case, ctx)
+    if case["kind"] == "interleaved":
+        return run_interleaved(case, ctx)
     if "literal" in case:
         kw = dict(case["literal"]["params"])
         data = np.array(case["literal"]["data"], dtype=float)
     else:
         rng = gen.rng_for(case["seed"])
         w = int(rng.choice([20, 30, 50, 80, 120]))
-        sp = float(rng.choice([0.05, 0.1, 0.2]))
+        sp = float(rng.choice([0.05, 0.1, 0.2, 0.2, 0.5, 1.0, 1.5, 2.5]))
         if round(sp * w) < 1:
             sp = 0.1
         kw = dict(window_size=w, ev_threshold=float(rng.choice([0.5, 0.8, 0.95, 0.99, 0.999])), delta=float(rng.choice([0.005, 0.05, 0.1, 0.3])),
@@ -188,6 +192,56 @@ def run_periodic(case, ctx):
     ctx.nontrivial = (det.num_pcs or 0) >= 2 and zero >= 2
     ctx.sample = {"kind": "periodic", "params": kw, "features": d, "components": det.num_pcs, "scores_checked": zero}
     ctx.digest = "per-%s-%s" % (sorted(kw.items()), hash(base_win.tobytes()))
+
+
+def run_interleaved(case, ctx):
+    """two detectors alive at the same time, updated in turn on their own streams (and rebuilding after their own drifts at
+    different moments): each must produce exactly the trace it produces when it runs alone"""
+    rng = gen.rng_for(case["seed"])
+    dets = []
+    for _ in range(2):
+        w = int(rng.choice([20, 30, 50]))
+        kw = dict(window_size=w, ev_threshold=float(rng.choice([0.8, 0.95, 0.99])), delta=float(rng.choice([0.005, 0.05, 0.1])),
+                  divergence_metric=str(rng.choice(["kl", "intersection", "intersection"])), sample_period=float(rng.choice([0.1, 0.2])),
+                  online_scaling=bool(rng.integers(0, 2)))
+        d = int(rng.integers(2, 5))
+        data = gen_stream(rng, d, int(rng.integers(6, 10)) * w, w) * float(rng.choice([1.0, 3.0])) + float(rng.choice([0.0, 5.0]))
+        dets.append((kw, data))
+
+    def obs(det):
+        return (det.drift_state, det.samples_since_reset, len(det._change_score), round(float(det._change_score[-1]), 9))
+
+    solo = []
+    for kw, data in dets:
+        det = PCACD(**kw)
+        tr = []
+        for x in data:
+            det.update(x.reshape(1, -1).copy())
+            tr.append(obs(det))
+        solo.append(tr)
+    live = [PCACD(**kw) for kw, _ in dets]
+    pos = [0, 0]
+    chunk = int(rng.choice([1, 1, 7, 25]))
+    drifts = 0
+    while pos[0] < len(dets[0][1]) or pos[1] < len(dets[1][1]):
+        for j in (0, 1):
+            for _ in range(chunk):
+                if pos[j] >= len(dets[j][1]):
+                    break
+                live[j].update(dets[j][1][pos[j]].reshape(1, -1).copy())
+                got = obs(live[j])
+                ctx.count("interleaved_updates_compared")
+                if got != solo[j][pos[j]]:
+                    ctx.violation("C11/instances_not_independent", "detector %d of two interleaved PCACD detectors, update %d: (state, since reset, scores, last score) = %r, "
+                                  "the same detector running alone gives %r" % (j, pos[j], got, solo[j][pos[j]]),
+                                  params=[dets[0][0], dets[1][0]], chunk=chunk, step=pos[j])
+                    return
+                drifts += got[0] == "drift"
+                pos[j] += 1
+    ctx.count("interleaved_detector_pairs")
+    ctx.nontrivial = drifts >= 1
+    ctx.sample = {"kind": "two interleaved detectors", "params": [dets[0][0], dets[1][0]], "chunk": chunk, "drifts": drifts}
+    ctx.digest = "inter-%s" % (case["seed"],)
 
 
 def run_flag(case, ctx):
